@@ -470,6 +470,11 @@ def g_large(ctx, rng, i):
     as_float = (i // 4) % 2 == 1
     off = gen.coords(rng, (2,), 2 * s, "int")
     conv = (lambda v: np.asarray(v, dtype=float)) if as_float else (lambda v: np.asarray(v, dtype=np.int64))
+    if not as_float and (i // 32) % 2 == 1:
+        # narrow integer representations (16 / 32 bit pixel coordinates): everything fits the type, products of coordinates do not
+        narrow = np.int16 if s <= 300 else np.int32
+        off = np.abs(off) if narrow is np.int16 else off
+        conv = lambda v: np.asarray(v, dtype=narrow)  # noqa: E731
     if (i // 8) % 2 == 0:
         a = gen.coords(rng, (2,), 4, "int")
         d = gen.nonzero_vec(rng, 2, 3)
